@@ -287,6 +287,17 @@ Captured(pos, m) == IF IsEp(pos, m) THEN Piece(Other(pos.stm), PAWN) ELSE pos.bo
 IsNonQuiet(pos, m, promNonQuiet) ==
     \/ IsCapture(pos, m)
     \/ promNonQuiet /\ Promo(m) \in {1, 4}
+\* generation class of a pseudo-legal move: which stage of the engine's phased generator produces it
+\* (MoveGenOD.tla): 1 pawn non-quiet, 2 officer captures, 3 king captures, 4 pawn quiet, 5 castling,
+\* 6 officer quiet, 7 king quiet
+GenClass(pos, m, promNonQuiet) ==
+    LET t == TypeOf(pos.board[From(m)])
+        nq == IsNonQuiet(pos, m, promNonQuiet)
+    IN IF IsCastle(pos, m) THEN 5
+       ELSE IF t = PAWN THEN (IF nq THEN 1 ELSE 4)
+       ELSE IF t = KING THEN (IF nq THEN 3 ELSE 7)
+       ELSE (IF nq THEN 2 ELSE 6)
+
 NonQuiet(pos, promNonQuiet) == {m \in PseudoLegal(pos) : IsNonQuiet(pos, m, promNonQuiet)}
 Quiet(pos, promNonQuiet) == {m \in PseudoLegal(pos) : ~IsNonQuiet(pos, m, promNonQuiet)}
 
